@@ -4698,10 +4698,22 @@ class WBEMConnection:  # pylint: disable=too-many-instance-attributes
                 QueryLanguage=QueryLanguage,
                 Query=Query)
 
-            if result is None:
-                instances = []
-            else:
-                instances = [x[2] for x in result[0][2]]
+            instances = []
+            if result is not None:
+                for x in result[0][2]:
+                    # Each item must be an unpacked VALUE.OBJECT* element
+                    # with an instance
+                    if not isinstance(x, tuple) or \
+                            not isinstance(x[2], CIMInstance):
+                        raise CIMXMLParseError(
+                            _format("Expecting child elements VALUE.OBJECT, "
+                                    "VALUE.OBJECTWITHLOCALPATH or "
+                                    "VALUE.OBJECTWITHPATH with an instance in "
+                                    "the result of ExecQuery, got {0} object",
+                                    (x[2] if isinstance(x, tuple) else x).
+                                    __class__.__name__),
+                            conn_id=self.conn_id)
+                    instances.append(x[2])
 
             for instance in instances:
 
